@@ -148,7 +148,7 @@ LongPolicies(s) ==
          UNION {{Mk("allow", x, <<G1(n), G2(m)>>), Mk("allow", x, <<G2(m), G1(n)>>),
                  Mk("allow", x, <<G1(n), E, G2(m), G3>>)} :
                  x \in {TRUE, FALSE}, n \in {1, 128, 254, 255, 256}, m \in {0, 127, 253, 254, 255, 256}}
-    [] s = "longconds" ->
+    [] s \in {"longconds", "klong"} ->
          {Mk("allow", x,
              << [names |-> IdxRange(0, n - 1),
                  conds |-> <<Entry(NSys - 2, EqLists(kc[1], kc[2])[1])>> \o
@@ -156,7 +156,8 @@ LongPolicies(s) ==
                            <<Entry(NSys - 1, <<[arg |-> 5, op |-> "GreaterThan", val |-> 7]>>)>>,
                  act |-> "errno"],
                 LG(<<NSys - 3, NSys - 2>>, "kill_process") >>) :
-            x \in {TRUE, FALSE}, n \in {0, 1, 200}, kc \in KC}
+            x \in (IF s = "klong" THEN {TRUE} ELSE {TRUE, FALSE}),
+            n \in (IF s = "klong" THEN {0, 1, NSys - 3} ELSE {0, 1, 200}), kc \in KC}
 LongArgs(j) == [a \in 0..5 |-> j + a + 1]
 LongEvents(s) ==
   LET Nrs == {0, 1, 2, 125, 126, 127, 128, 129, 249, 250, 251, 252, 253, 254, 255, 256, 257, 258,
@@ -167,13 +168,13 @@ LongEvents(s) ==
            AS == {LongArgs(j) : j \in Js}
                  \cup {[LongArgs(j) EXCEPT ![p] = 0] : j \in Js, p \in {0, 1, 2, 5}}
                  \cup {[LongArgs(j) EXCEPT ![5] = 300] : j \in {1, 64}} IN
-       SetToSeq({Ev(ar, nr, a) : ar \in {"own", "other"}, nr \in {0, 199, 200, NSys - 3, NSys - 2, NSys - 1, NSys, X32Bit + NSys - 2}, a \in AS})
+       SetToSeq({Ev(ar, nr, a) : ar \in {"own", "other"}, nr \in ({0, 199, 200, NSys - 3, NSys - 2, NSys - 1, NSys, X32Bit + NSys - 2} \cap (0..(2 * X32Bit - 1))) , a \in AS})
 
-Explicit(s) == s \in {"defects", "defects2", "long1", "long2", "longconds"}
+Explicit(s) == s \in {"defects", "defects2", "long1", "long2", "longconds", "klong"}
 ExplicitPolicies(s) ==
   CASE s = "defects" -> BasePolicies(0) \cup Defective1(0)
     [] s = "defects2" -> BasePolicies(0) \cup Defective1(0) \cup Defective2(0)
-    [] s \in {"long1", "long2", "longconds"} -> LongPolicies(s)
+    [] s \in {"long1", "long2", "longconds", "klong"} -> LongPolicies(s)
 
 ---------------------------------------------------------------------------
 \* SetToSeq fixes one order; it is exported with the cases
@@ -185,7 +186,7 @@ EventSeq(s) ==
     [] s \in {"rich", "merge", "many", "manywide", "allops", "defects", "defects2"} ->
          SetToSeq({Ev(ar, nr, a) : ar \in {"own", "other"},
                                    nr \in Sys \cup {NSys, X32Bit, X32Bit + 1}, a \in Args2})
-    [] s \in {"long1", "long2", "longconds"} -> LongEvents(s)
+    [] s \in {"long1", "long2", "longconds", "klong"} -> LongEvents(s)
     [] s = "single" ->
          SetToSeq({Ev("own", 0, [a \in {0, 5} |-> IF a = 0 THEN v ELSE w]) : v \in Vals, w \in {0, B*B - 1}}
                   \cup {Ev("own", 0, [a \in {0, 5} |-> IF a = 5 THEN v ELSE w]) : v \in Vals, w \in {0, B*B - 1}})
